@@ -1,6 +1,7 @@
 package main
 
 import (
+	"golang.org/x/tools/go/packages"
 	"regexp"
 	"fmt"
 	"go/ast"
@@ -637,7 +638,15 @@ func c15Units(c *Ctx) {
 		case *ast.IndexExpr:
 			cl, ok := stripParens(n.X).(*ast.CompositeLit)
 			if !ok {
-				return true
+				// a package-level table: var names = [...]string{...}
+				if id, isID := stripParens(n.X).(*ast.Ident); isID {
+					if v, isVar := info.Uses[id].(*types.Var); isVar && v.Parent() == pkg.Types.Scope() {
+						cl = pkgVarLiteral(pkg, v)
+					}
+				}
+				if cl == nil {
+					return true
+				}
 			}
 			for _, el := range cl.Elts {
 				if tv := info.Types[el]; tv.Value != nil && tv.Value.Kind() == constant.String {
@@ -655,6 +664,15 @@ func c15Units(c *Ctx) {
 				if id, ok := n.Lhs[0].(*ast.Ident); ok && id.Name == "u" {
 					if tv := info.Types[n.Rhs[0]]; tv.Value != nil {
 						capU, _ = constant.Int64Val(tv.Value)
+					} else if call, ok := n.Rhs[0].(*ast.CallExpr); ok && len(call.Args) == 2 {
+						// u = min(u, 12)
+						if f, ok := call.Fun.(*ast.Ident); ok && f.Name == "min" {
+							for _, a := range call.Args {
+								if tv := info.Types[a]; tv.Value != nil {
+									capU, _ = constant.Int64Val(tv.Value)
+								}
+							}
+						}
 					}
 				}
 			}
@@ -690,3 +708,25 @@ var recvCallRe = regexp.MustCompile(`call \(((?:[\w]+/)*[\w]+)\.[A-Za-z_]\w*\)\.
 // plainCall renders method calls "call (pkg.T).m(" as "call pkg.m(": an unexported method and a plain function of
 // the same name taking the value as first argument are the same step.
 func plainCall(a string) string { return recvCallRe.ReplaceAllString(a, "call $1.") }
+
+// pkgVarLiteral: the composite literal a package-level variable is initialised with (nil if none).
+func pkgVarLiteral(pkg *packages.Package, v *types.Var) *ast.CompositeLit {
+	for _, f := range pkg.Syntax {
+		for _, d := range f.Decls {
+			gd, ok := d.(*ast.GenDecl)
+			if !ok || gd.Tok != token.VAR {
+				continue
+			}
+			for _, sp := range gd.Specs {
+				vs := sp.(*ast.ValueSpec)
+				for i, n := range vs.Names {
+					if pkg.TypesInfo.Defs[n] == v && i < len(vs.Values) {
+						cl, _ := stripParens(vs.Values[i]).(*ast.CompositeLit)
+						return cl
+					}
+				}
+			}
+		}
+	}
+	return nil
+}
